@@ -1,7 +1,7 @@
 CHECKS = [
     entry("C10", "samplers",
           technique="property-based testing (rapid): purity across calls / fresh instances / a separately started process, nesting in the rate, statistical kept fraction",
-          quick=dict(checks=5000, budget_s=45),
+          quick=dict(checks=4000, budget_s=45),
           thorough=dict(checks=10000, shards=16, budget_s=300),
           level_text="Generated (trace-id list, rate list) for sample.DeterministicSampler and collect.StressRelief.GetSampleRate: every decision is repeated, re-made by a fresh instance and by a separately started process; nesting is checked over all drawn rate pairs; the kept fraction is measured on 40000 ids per rate in {2,3,10,100,10^4}. Exploration: finds impurity, non-nested thresholds, wrong reported rates and wrong kept fractions on the ids/rates the generator reaches; does not prove absence.",
           level_note="Hash and salt constants are not pinned. 'Every node' is approximated by two processes of the same binary on one machine (no cross-architecture or cross-version comparison)."),
